@@ -115,6 +115,19 @@ def verdictHash (seed : UInt64) (e : E) : UInt64 :=
 /-- codes: 0-3 keep, 4 replace by value ++ "R", 5 replace by tombstone, 6 replace by weak tombstone, 7 drop -/
 def verdictCode (seed : UInt64) (e : E) : Nat := ((verdictHash seed e >>> 17) % 8).toNat
 
+/-- codes 6 (RemoveWeak) and 7 (Destroy) are only issued for the write-once keys `once`; elsewhere they fold to 0 / 1 (keep) -/
+def treeVerdictCode (seed : UInt64) (once : List BK) (e : E) : Nat :=
+  let c := verdictCode seed e
+  if !once.contains e.key && c ≥ 6 then c - 6 else c
+
+def seededTreeFilter (seed : UInt64) (once : List BK) (e : E) : Verdict :=
+  match treeVerdictCode seed once e with
+  | 4 => .replace .value (e.val ++ [0x52])
+  | 5 => .replace .tomb []
+  | 6 => .replace .weak []
+  | 7 => .drop
+  | _ => .keep
+
 def seededFilter (seed : UInt64) (e : E) : Verdict :=
   match verdictCode seed e with
   | 4 => .replace .value (e.val ++ [0x52])
@@ -126,5 +139,11 @@ def seededFilter (seed : UInt64) (e : E) : Verdict :=
 def parseFilter (s : String) : Option (E → Verdict) :=
   if s == "none" then some noFilter
   else s.toNat?.map (fun n => seededFilter (UInt64.ofNat n))
+
+def showChoice : Choice → String
+  | .doNothing => "nothing"
+  | .move ids d => "move=" ++ showIds ids ++ " dest=" ++ toString d
+  | .merge ids d => "merge=" ++ showIds ids ++ " dest=" ++ toString d
+  | .drop ids => "drop=" ++ showIds ids
 
 end Drv
